@@ -14,6 +14,8 @@ GROUPS.append(Group(name="C06/get_reg_number[bounded]", unity="C06/u_range.cpp",
 GROUPS.append(Group(name="C06/riscv.get_operands.mem", unity="C06/u_riscv_ops.cpp", entry="h_riscv_ops",
                     functions=[("get_operands", "asm/riscv.cpp", "harness (token-script contract), all 32-bit offsets, all registers"), ("get_x_register_riscv, get_register_number", "asm/riscv.cpp", "real callees")],
                     unwind=40, checks=["--bounds-check", "--pointer-check"], timeout=900))
+# the RV32I form contracts carry both the encoding (C01) and the "exactly or rejected" obligations (C06)
+GROUPS += [g for g in _c01.GROUPS if "/riscv." in g.name and "immediates" not in g.name]
 LEVEL = "proof"
 TRUSTED = _c01.TRUSTED
 MANIFEST = {
